@@ -82,7 +82,7 @@ def execSearch (fs : FSnap) (cfg : Config) (args : List Str) : Outcome :=
   | .error (.unsupported w) => .unsupported w
   | .ok q =>
     let p := Plan.of q cfg
-    let st0 : WSt := { res := { out := fmtHeader q.format } }
+    let st0 : WSt := { res := { outRev := [fmtHeader q.format] } }
     match searchRoots p fs q.roots st0 with
     | .error (.exit2 _ out) => .exit 2 out [] false []
     | .error (.unsupported w) => .unsupported w
